@@ -11,13 +11,13 @@ EXTENDS BatchDBProps
 Fairness ==
   /\ \A u \in Updates : WF_vars(CreateUpdate(u)) /\ WF_vars(Commit(u))
   /\ \A g \in Groups : WF_vars(InsertGroup(g))
-  /\ \A j \in Jobs : WF_vars(InsertJob(j)) /\ WF_vars(CancelReady(j))
+  /\ \A j \in Jobs : WF_vars(InsertJob(j)) /\ WF_vars(CancelReadySelect(j)) /\ WF_vars(CancelReadyCall(j))
   /\ \A i \in Insts : WF_vars(Activate(i))
   /\ \A j \in Jobs : WF_vars(\E a \in AttIds, i \in Insts : SchedSelect(j, a, i))
   /\ \A j \in Jobs, a \in AttIds, i \in Insts : WF_vars(ScheduleProc(j, a, i))
-  /\ \A j \in Jobs, a \in AttIds, i \in Insts : WF_vars(\E st \in {"Success", "Failed"}, t0 \in Times, t1 \in Times : Complete(j, a, i, st, t0, t1))
-  /\ \A j \in Jobs, a \in AttIds : WF_vars(\E t \in Times : CancelRunning(j, a, t)) /\ WF_vars(\E t \in Times : CancelCreating(j, a, t))
-                                   /\ WF_vars(\E t \in Times : Orphan(j, a, t))
+  /\ \A j \in Jobs, a \in AttIds, i \in Insts : WF_vars(\E st \in {"Success", "Failed", "Error"}, t0 \in Times, t1 \in Times : Complete(j, a, i, st, t0, t1))
+  /\ \A j \in Jobs, a \in AttIds : WF_vars(CancelRunningSelect(j, a)) /\ WF_vars(CancelCreatingSelect(j, a)) /\ WF_vars(OrphanSelect(j, a))
+                                   /\ WF_vars(\E t \in Times : UnscheduleCall(j, a, t)) /\ WF_vars(\E t \in Times : CancelCreatingCall(j, a, t))
 
 LiveSpec == Init /\ [][Next]_vars /\ Fairness
 
